@@ -13,15 +13,20 @@
       see [conf]); [fn_ok]/[meth_ok]: verification functions and methods, given None only
       for Optional parameters, return a value of their declared type or raise something that
       is not a None-dereference;
-    - [keys_inj root]: distinct sub-expressions of the invariant have distinct canonical
-      representations. This is decidable per invariant ([keys_distinctb]) and is evaluated
-      on every invariant of every run; it is a hypothesis because injectivity of the
-      string printer [_Canonicalizer] for *all* expressions is not proved. *)
+    - [keys_inj root]: the operand of a None-test of the invariant (the only source of
+      non-null keys) shares its canonical representation with no other sub-expression.
+      It is PROVED ([C07_canon_path_inj], [C07_guards_keys_inj]) for every invariant whose
+      None-tests are all on access paths [x.a.b...] and whose identifiers are Python
+      identifiers ([guards_on_paths], a syntactic, executable condition), so
+      [C07_infer_none_safe_paths] has no such side condition. For None-tests on other
+      expressions (calls, indexed elements) it remains a hypothesis, decidable per invariant
+      ([keys_distinctb]) and evaluated on every invariant of every run. Full syntactic
+      injectivity of [_Canonicalizer] is false: [f"a"] and ["a"] both print as ['a']. *)
 From Coq Require Import List NArith ZArith Bool.
 From Coq Require Strings.String.
 Import Coq.Strings.String.StringSyntax.
 From Acg Require Import Base.Str Model.Tree Model.PyEval Model.TypeInf
-  Proofs.TypeInfFacts Proofs.TypeInfWitness.
+  Proofs.TypeInfFacts Proofs.TypeInfCanon Proofs.TypeInfWitness.
 Import ListNotations.
 Open Scope Z_scope.
 
@@ -37,6 +42,39 @@ Theorem C07_infer_none_safe :
     eval r root fuel <> Raise NoneDeref.
 Proof. exact infer_no_none_deref. Qed.
 Print Assumptions C07_infer_none_safe.
+
+(** The canonical representation of an access path is shared by no other well-formed
+    expression (all expressions: calls, constants with arbitrary strings/numbers, f-strings,
+    quantifiers, ...). *)
+Theorem C07_canon_path_inj :
+  forall p, is_path p = true -> wf_expr p = true ->
+  forall e, wf_expr e = true -> canon e = canon p -> e = p.
+Proof. exact canon_path_inj. Qed.
+Print Assumptions C07_canon_path_inj.
+
+Theorem C07_guards_keys_inj : forall root, guards_on_paths root = true -> keys_inj root.
+Proof. exact guards_keys_inj. Qed.
+Print Assumptions C07_guards_keys_inj.
+
+(** Main theorem without the side condition, for invariants whose None-tests are on access
+    paths (all invariants of the real-world meta-models are of this form). *)
+Theorem C07_infer_none_safe_paths :
+  forall (S : symtab) (fuel : nat) (root : expr) (G : tenv) (r : env) (t : ty),
+    symtab_ok S -> guards_on_paths root = true ->
+    infer false S G [] root = Some t ->
+    env_ok S G r -> fn_ok S r -> meth_ok S r ->
+    match eval r root fuel with
+    | Val v => conf S t v
+    | Raise x => x <> NoneDeref
+    end.
+Proof. exact infer_none_safe_paths. Qed.
+Print Assumptions C07_infer_none_safe_paths.
+
+Example C07_guards_on_paths_nonvacuous :
+  guards_on_paths w_guard = true
+  /\ guards_on_paths (Or [IsNone (FunctionCall (s2l "f") [self_ "o"]); self_ "i"]) = false.
+Proof. vm_compute. split; reflexivity. Qed.
+Print Assumptions C07_guards_on_paths_nonvacuous.
 
 (** ... and its result, if any, has the inferred type ([conf]; for [bool] this only says
     "not None", see below); raised exceptions are never None-dereferences. *)
